@@ -164,10 +164,11 @@ func classifyDeath(stderr string, exit int) (class, site string) {
 	return fmt.Sprintf("child exited with status %d without a Go fatal message", exit), ""
 }
 
-// batchStats is what a batch adds to the evidence.
-type batchStats struct {
-	accepted, rejected int
-}
+// confirmedHangs counts the non-termination verdicts of this shard process. Each costs 150 s of wall clock; after
+// maxConfirmedHangs of them further candidates are skipped so that the shard ends within the driver's watchdog.
+var confirmedHangs int
+
+const maxConfirmedHangs = 3
 
 // runBatch runs the inputs in child processes, restarting after every process-fatal input, and judges every result.
 func runBatch(r *report.Run, tg *target, ins []inp) {
@@ -190,6 +191,7 @@ func runBatch(r *report.Run, tg *target, ins []inp) {
 	results := make([]*result, len(ins))
 	start := 0
 	restarts := 0
+	hangsInBatch := 0
 	for start < len(ins) {
 		if restarts > 40 {
 			r.Note(fmt.Sprintf("target %s: more than 40 child restarts in one batch; %d inputs of the batch not run", tg.name, len(ins)-start))
@@ -197,7 +199,11 @@ func runBatch(r *report.Run, tg *target, ins []inp) {
 			break
 		}
 		r.Journal(fmt.Sprintf("child %s from %d", tg.name, start))
-		cr := spawn(tg, inFile, start, len(ins), 30)
+		firstTimeout := 30
+		if confirmedHangs >= maxConfirmedHangs {
+			firstTimeout = 5 // hangs are already established in this shard: keep moving, unfinished inputs are skipped
+		}
+		cr := spawn(tg, inFile, start, len(ins), firstTimeout)
 		r.Count("children.spawned", 1)
 		next := start
 		for i := start; i < len(ins); i++ {
@@ -229,6 +235,12 @@ func runBatch(r *report.Run, tg *target, ins []inp) {
 		// input `cr.started` was begun and has no result: the process died or was stopped while decoding it
 		i := cr.started
 		res := result{I: i}
+		if cr.timeout && (confirmedHangs >= maxConfirmedHangs || hangsInBatch >= 2) {
+			// the time budget for confirming non-termination (120 s each) is used up; the violation is already recorded
+			r.Count("harness.batches_cut_short", 1)
+			r.Note(fmt.Sprintf("target %s: batch cut short after repeated non-termination; %d inputs not run", tg.name, len(ins)-i))
+			break
+		}
 		if cr.timeout {
 			r.Count("slow.first_attempt_without_result_after_30s", 1)
 			r.Note(fmt.Sprintf("no result after 30 s at first attempt: %s [%s; %s]", tg.name, ins[i].Class, ins[i].Desc))
@@ -252,6 +264,10 @@ func runBatch(r *report.Run, tg *target, ins []inp) {
 		} else {
 			cls, site := classifyDeath(cr.stderr, cr.exit)
 			res.St, res.Msg, res.Site = "fatal", cls, site
+		}
+		if res.St == "timeout" || res.St == "dead" {
+			confirmedHangs++
+			hangsInBatch++
 		}
 		results[i] = &res
 		start = i + 1
